@@ -707,7 +707,9 @@ def mon_c17(ix: Index):  # noqa: C901, PLR0912
             while base and base not in order:
                 base = base.rsplit("/", 1)[0] if "/" in base else ""
             if base in order:
-                known_pos.append(order[base])
+                # an operation that was started but not completed may have run any part of its own extent before
+                ext = max(v for q, v in order.items() if q == base or q.startswith(base + "/"))
+                known_pos.append(ext)
         last_known = max(known_pos) if known_pos else -1
         history_nonempty = any(st for oid, st in start["statuses"].items() if ix.kind.get(oid) is not None or oid in ix.id2path) or len(start["statuses"]) > 1
         calls = [e for e in evs if e["kind"] == "logcall"]
@@ -729,7 +731,7 @@ def mon_c17(ix: Index):  # noqa: C901, PLR0912
                             and not any(c2["i"] > c["i"] and c2["i"] < r["i"] and c2.get("t") == c.get("t") for c2 in calls)), None)
             expect_silent = pos < last_done
             if not expect_silent:
-                judged_audible = pos > last_known or (c.get("where") == "step" and pos >= last_known)
+                judged_audible = pos > last_known
                 if not judged_audible:
                     n -= 1
                     continue
@@ -751,6 +753,9 @@ def mon_c17(ix: Index):  # noqa: C901, PLR0912
                         kinds.add("inner-op-of-completed-context")
                     if start["statuses"].get(ix.path2id.get(p)) == "FAILED":
                         kinds.add("failed-op-caught")
+                # a failure recorded and caught earlier in this very invocation leaves the same unvisited failed operation
+                if len(start["statuses"]) > 1 and any(x["kind"] == "caught" and x["i"] < c["i"] for x in evs):
+                    kinds.add("failed-op-caught")
                 cause = "+".join(sorted(kinds)) or ("first-invocation" if how == "first-invocation" else "flat-history")
                 out.append(V("C17", "C17/new-log-suppressed/%s" % cause,
                              "invocation %d: log %s (position %d) is past the last completed operation (%s at %d) yet nothing was emitted" % (inv, c["tag"], pos, last_done_path, last_done), c["i"]))
